@@ -358,6 +358,10 @@ def run(ctx):
     nv2 = check_vex2_selection(db, rep, "D11-VEX2-SELECTION")
     if nv2 < 15:
         raise AnalysisBroken("only %d (instruction type, operand shape) cases judged for the VEX form selection" % nv2)
+    from vexroles import check_vex_rxb_roles
+    nvr = check_vex_rxb_roles(db, rep, "D12-VEX-RXB-ROLES")
+    if nvr < 5:
+        raise AnalysisBroken("only %d (instruction type, sources, operand form) shapes judged for VEX.R/X/B roles" % nvr)
     from x86enc import check_listing_displacements
     wd8 = os.path.join(ctx.scratch, "disp")
     os.makedirs(wd8, exist_ok=True)
